@@ -224,8 +224,8 @@ TYPES = {"signal": "4", "method_call": "1", "method_return": "2", "error": "3"}
 
 def parse_simple(text):
     """rules in the plain key='value' form (no quoting tricks) -> dict, or None (the unit-level check covers the rest)"""
-    if text == b"":
-        return {}
+    if text.strip(b" \t\n\r") == b"":
+        return {}           # a text of blanks is the empty rule (Spec/MatchGrammar: RuleText.blank)
     if not SIMPLE.match(text):
         return None
     d = {}
@@ -343,6 +343,10 @@ def bus_oracle(tr):
                     for k in range(len(lst) - 1, -1, -1):
                         if lst[k][1] == parsed and (parsed is not None or lst[k][0] == text):
                             del lst[k]; break
+                    else:
+                        # the bus removed a rule this oracle cannot name (one written with quoting the oracle does not read): it no longer
+                        # knows which of the connection's unreadable rules are left, and claims nothing about them
+                        lst[:] = [e for e in lst if e[1] is not None]
             elif body.startswith("s:") and err and hexname(fld(sent, "member")) == "RemoveMatch":
                 # a rule the connection added and never removed is still its rule: RemoveMatch finds it - unless it names the unique name of
                 # a connection that has left (the bus drops such rules: the name will never be used again)
